@@ -321,7 +321,82 @@ def normalise(n):
         r = _pair_bindings(out)
         if r is not None:
             out = r
+    if out.get('k') == 'CompoundStmt':
+        r = _split_pair_decomposition(out)
+        if r is not None:
+            out = r
     return out
+
+
+def _loc_key(loc):
+    a = (loc or '').rsplit(':', 2)
+    try:
+        return (a[0], int(a[1]), int(a[2]))
+    except (ValueError, IndexError):
+        return (loc or '', 0, 0)
+
+
+def _pair_parts(e):
+    """(E1, E2) when e builds a pair from two expressions: std::make_pair(E1, E2), std::pair<..>(E1, E2), std::pair<..>{E1, E2}"""
+    g = 0
+    while isinstance(e, dict) and g < 8:
+        g += 1
+        k = e.get('k')
+        if k == 'CallExpr' and e.get('callee_name') == 'std::make_pair' and len(e.get('c') or ()) == 3:
+            return e['c'][1], e['c'][2]
+        if k in ('CXXConstructExpr', 'CXXTemporaryObjectExpr', 'InitListExpr') and len(e.get('c') or ()) == 2 and (e.get('t') or '').replace('const ', '').startswith('std::pair<'):
+            return e['c'][0], e['c'][1]
+        if k in ('CXXConstructExpr', 'CXXFunctionalCastExpr', 'CXXBindTemporaryExpr', 'MaterializeTemporaryExpr', 'ExprWithCleanups', 'ParenExpr', 'ImplicitCastExpr') and len(e.get('c') or ()) == 1:
+            e = e['c'][0]
+            continue
+        return None
+    return None
+
+
+def _split_pair_decomposition(blk):
+    """`auto [a, b] = std::make_pair(E1, E2);` (typically what is left of a pair-returning helper after inlining) is  `auto a = E1; auto b = E2;`"""
+    cs = list(blk.get('c') or ())
+    changed = False
+    i = 0
+    while i < len(cs):
+        st = cs[i]
+        v = st['c'][0] if isinstance(st, dict) and st.get('k') == 'DeclStmt' and len(st.get('c') or ()) == 1 else None
+        parts = _pair_parts(v.get('init')) if isinstance(v, dict) and v.get('k') == 'VarDecl' and len(v.get('bindings') or ()) == 2 and isinstance(v.get('init'), dict) else None
+        if parts is None or (v.get('t') or '').rstrip().endswith('&'):
+            i += 1
+            continue
+        base = _loc_key(v.get('loc'))
+        decls = []
+        ok = True
+        for which, (name, e) in enumerate(zip(v['bindings'], parts)):
+            cands = sorted({x.get('dloc') for r in cs[i + 1:] for x in _walk(r) if x.get('k') == 'DeclRefExpr' and x.get('refk') == 'Binding' and x.get('ref') == name
+                            and _loc_key(x.get('dloc'))[0] == base[0] and _loc_key(x.get('dloc'))[1:] > base[1:]}, key=_loc_key)
+            if not cands:
+                if _impure(e):
+                    ok = False
+                continue
+            decls.append({'k': 'DeclStmt', 'loc': st.get('loc'), 'end': st.get('end'), 'id': st.get('id') if not decls else None,
+                          'c': [{'k': 'VarDecl', 'name': name, 'loc': cands[0], 't': e.get('t'), 'static': False, 'init': e, 'c': [], 'from_binding': True}]})
+        if not ok:
+            i += 1
+            continue
+        locs = {d['c'][0]['loc'] for d in decls}
+
+        def fn(x, locs=locs):
+            if x.get('k') == 'DeclRefExpr' and x.get('refk') == 'Binding' and x.get('dloc') in locs:
+                y = dict(x)
+                y['refk'] = 'Var'
+                y['local'] = True
+                return y
+            return None
+        cs = cs[:i] + decls + [_replace(r, fn) for r in cs[i + 1:]]
+        i += len(decls)
+        changed = True
+    if not changed:
+        return None
+    res = dict(blk)
+    res['c'] = cs
+    return res
 
 
 # ---------------------------------------------------------------------------------------------------------------------------------
@@ -592,6 +667,15 @@ def inline_helpers(functions, inventory, root):
     for fid in list(new):
         if fid in calls_of(new[fid]):
             del new[fid]
+    # a helper that names its sub-expressions (`T a = ..; T b = f(a); return g(b);`) is the expression it returns, where folding its locals is exact
+    set_context(functions)
+    for fid, d in new.items():
+        if _single_return_expr(d['body']) is None and any(x.get('k') == 'DeclStmt' for x in d['body'].get('c') or ()) \
+                and all(x.get('k') in ('DeclStmt', 'ReturnStmt') for x in d['body'].get('c') or ()):
+            trial = dict(d)
+            fold_new_locals(trial, ())
+            if _single_return_expr(trial['body']) is not None:
+                d['body'] = trial['body']
     count = 0
 
     def expand_stmt(s, depth=0, tail=False):
@@ -767,10 +851,13 @@ def inline_helpers(functions, inventory, root):
     for fid, d in functions.items():
         if not d.get('body') or not (d.get('loc') or '').startswith(root) or fid in new:
             continue
-        if not any(x.get('callee') in new for x in _walk(d['body'])):
+        if not any(x.get('callee') in new for x in _walk(d['body'])) and not any(x.get('callee') in new for io in d.get('inits') or () if isinstance(io.get('init'), dict) for x in _walk(io['init'])):
             continue
         before = count
         d['body'] = rewrite(d['body'], tail_body=True)
+        for io in d.get('inits') or ():
+            if isinstance(io.get('init'), dict) and any(x.get('callee') in new for x in _walk(io['init'])):
+                io['init'] = rewrite(io['init'])
         if count > before:
             d['_inlined'] = sorted({x for x in new if x in {y.get('callee') for y in _walk(d['body'])}} | set(d.get('_inlined') or ()))
     return count
